@@ -27,7 +27,7 @@ PROPS = {
             dict(tla="Oracle_MC.tla", cfg="Oracle_MC_C15_sub.cfg", tier="thorough", timeout=1500),
             dict(tla="Oracle_MC.tla", cfg="Oracle_MC_C15_deep.cfg", tier="thorough", timeout=1500)],
         gen=dict(tla="Oracle_Gen.tla", cfg="Oracle_Gen_C15.cfg", depth=24, num=dict(quick=300, thorough=4000), timeout=900),
-        drive=dict(family="oracle", mode="c15", nrand=dict(quick=300, thorough=6000)),
+        drive=dict(family="oracle", mode="c15", nrand=dict(quick=600, thorough=6000)),
         trace=dict(tla="Oracle_Trace.tla", cfg="Oracle_Trace_C15.cfg"),
         rule="as C01, scripts biased to (re)activation and slow/equal block times; non-trivial = the trace contains a "
              "deactivation, a rejected activation, or an expiry",
